@@ -292,6 +292,12 @@ def run(pid, tier, seed, replay=None):
                 inst = draw_instance(rng, nb=2 if n_ % 2 else 3, k=[1, 2, 3][n_ % 3], N=3)
                 sched = concretise([x for x in s if x[2] < len(inst["sizes"]) and x[3] < len(inst["sizes"])], inst)
                 add("lazy-causal", inst, sched)
+                if n_ % 5 == 1:
+                    # the same laziness / causality clauses on the SYMBOLIC code path (sympy matrices)
+                    inst_s = draw_instance(rng, nb=2, k=inst["k"], N=2)
+                    if inst_s["d"] <= 4:
+                        add("lazy-causal-sympy", inst_s, concretise(
+                            [x for x in s if x[2] < 2 and x[3] < 2], inst_s), input_kind="lazy_sympy", recheck=0)
                 if n_ % 4 == 3:
                     inst_a = draw_instance(rng, nb=len(inst["sizes"]), k=inst["k"], N=3, custom=True)
                     add("lazy-causal-algebra", inst_a, concretise(
